@@ -1901,10 +1901,17 @@ class Pipeline:
             if output_names is None
             else {pipeline.node_mapping[n] for n in output_names}  # type: ignore[misc]
         )
-        between = _find_nodes_between(pipeline.graph, input_nodes, output_nodes)
-        drop = [f for f in pipeline.functions if f not in between]
-        for f in drop:
-            pipeline.drop(f=f)
+        if output_names is None:
+            between = _find_nodes_between(pipeline.graph, input_nodes, output_nodes)
+        else:
+            # Everything the requested outputs depend on, not looking beyond provided values.
+            provided = set() if inputs is None else set(inputs)
+            between = _find_required_nodes(pipeline.graph, provided, output_nodes)
+        # Drop all other functions at once: validating after every single drop can reject
+        # an intermediate pipeline although the resulting pipeline is valid.
+        pipeline.functions = [f for f in pipeline.functions if f in between]
+        pipeline._clear_internal_cache()
+        pipeline._validate()
 
         if output_names is not None:
             dropped = [n for n in output_names if n not in pipeline.output_to_func]
@@ -2185,6 +2192,24 @@ def _traverse_graph(
         return results  # type: ignore[return-value]
 
     return sorted(_traverse(start), key=at_least_tuple)
+
+
+def _find_required_nodes(
+    graph: nx.DiGraph,
+    provided: set[str],
+    output_nodes: set[Any],
+) -> set[Any]:
+    """The nodes that `output_nodes` depend on, not looking beyond the `provided` names."""
+
+    def is_needed(u: Any, v: Any) -> bool:
+        arg = graph.edges[u, v].get("arg")
+        return arg is None or not set(at_least_tuple(arg)).issubset(provided)
+
+    view = nx.subgraph_view(graph, filter_edge=is_needed)
+    required = set(output_nodes)
+    for output_node in output_nodes:
+        required.update(nx.ancestors(view, output_node))
+    return required
 
 
 def _find_nodes_between(
